@@ -43,7 +43,8 @@ def downstream_raise_clauses(c):
 
 class MapUpdate(NodeUpdate):
     cls = 'map'
-    props = ['C01', 'C03', 'C05', 'C10', 'C16']
+    # C06/C07/C11/C12: every elementwise operation of the streaming dataframes (map_partitions) is a `map` node
+    props = ['C01', 'C03', 'C05', 'C10', 'C16', 'C06', 'C07', 'C11', 'C12']
 
     def make_self(self, I):
         return {'func': VCallable('func'), 'args': ARGS, 'kwargs': KWARGS}
